@@ -1,6 +1,7 @@
 """C17 — -regex/-iregex: whole path, in the syntax selected by the nearest preceding -regextype."""
 from .. import dispatch, fmtlit, prim
 from . import common as C
+from . import shared as SH
 from . import c07
 
 M = C.M
@@ -94,10 +95,12 @@ def run(ctx):
         # two compilations: the user's pattern as it is in the selected syntax (validation; its failure is the function's
         # failure), then the whole-path form that becomes the matcher's regex
         stored = None
+        stored_all = []
         for b0 in nf.reachable():
             for st in nf.blocks[b0].stmts:
                 if st.rv is not None and st.rv.k == "agg" and st.rv.j.get("adt") == R + "RegexMatcher":
                     stored = prim.origin_of_operand(nf, st.rv.ops[st.rv.j["fields"].index("regex")])
+                    stored_all.append((b0, stored))
         raw_sites, anch_sites = [], []
         for b0, t0 in wo:
             po0 = prim.expand_single_def_vars(nf, prim.origin_of_operand(nf, t0.args[0])).strip()
@@ -108,7 +111,9 @@ def run(ctx):
             nxt = nf.blocks[rt.target].term if rt.target is not None else None
             ok_sites = nxt is not None and nxt.k == "call" and nxt.j.get("callee_name") == "branch" and nf.dominates(rb, anch_sites[0][0])
         if ok_sites:
-            ok_sites = stored is not None and any(c.a.get("bb") == anch_sites[0][0] and c.a["name"] == "with_options" for c in stored.call_nodes())
+            # every place that builds the matcher stores the derived compile (not, on some path, the operand as written)
+            ok_sites = bool(stored_all) and all(any(c.a.get("bb") == anch_sites[0][0] and c.a["name"] == "with_options" for c in so_.call_nodes()) for _, so_ in stored_all)
+        SH.regex_validated_as_written(ctx, "R2")
         ctx.ob("R2", "compile-site", ok_sites, "RegexMatcher::new compiles at %d site(s) (%s: %d on the raw pattern, %d on a derived one); oracle: with_options only (Regex::new would ignore the syntax): optionally the raw pattern first, `?`-propagated, then exactly one derived pattern whose result is stored as the matcher's regex" % (len(wo), [t.j.get("callee_name") for _, t in wo], len(raw_sites), len(anch_sites)), fn=nf, how="call sites + provenance")
         if len(anch_sites) == 1:
             b, t = anch_sites[0]
